@@ -56,6 +56,36 @@ def dest_cap(prog, f, d):
             x = x.ops[0]
         if sname:
             c = _flex_cap(prog, sname)
+            # the object is designated by a pointer member of another object: only the allocations that can end up in
+            # that member count, and the access has to fit every one of them
+            x = strip_casts(d)
+            holder = None
+            while x.is_inst and x.op in ("getelementptr", "bitcast"):
+                x = x.ops[0]
+            x = strip_casts(x)
+            if x.is_inst and x.op == "load":
+                q = strip_casts(x.ops[0])
+                if q.is_inst and q.op == "getelementptr" and q.field():
+                    holder = (re.sub(r"\.\d+$", "", q.field()[0]), q.field()[1])
+            if holder is not None:
+                from .bounds2 import flex_capacity_of_field
+                k = ("xf", holder, sname)
+                if k not in _fcache:
+                    _fcache[k] = flex_capacity_of_field(prog, holder, sname)
+                alts = _fcache[k]
+                if alts is None:
+                    # something of unknown origin is stored in that member: every allocation of the type may be behind it
+                    from .bounds2 import flex_capacity_sites
+                    alts = flex_capacity_sites(prog, sname)
+                if alts:
+                    if len(alts) == 1:
+                        return alts[0], "flex"
+                    allf = set()
+                    for a in alts:
+                        allf |= a.fields
+                    return Cap(fields=allf, desc="flexible member of %s via %s.%s" % (sname.replace("struct.", ""),
+                                                                                        holder[0].replace("struct.", ""), holder[1]),
+                               alts=alts), "flex"
             if c is not None:
                 return c, "flex"
     # pointer loaded from a field: capacity from the allocation sites of that field
